@@ -227,7 +227,7 @@ func VerifyDataDirChecksums(dataDir string) (*DataDirChecksumResult, error) {
 }
 
 // computePageChecksum computes PostgreSQL page checksum
-// This implements the FNV-1a based algorithm used by PostgreSQL
+// (pg_checksum_page of src/include/storage/checksum_impl.h) of one page
 func computePageChecksum(page []byte, blockNumber uint32) uint16 {
 	// PostgreSQL uses a custom checksum algorithm based on FNV-1a
 	// The checksum field (bytes 8-9) must be zeroed before computation
@@ -238,42 +238,30 @@ func computePageChecksum(page []byte, blockNumber uint32) uint16 {
 	pageCopy[8] = 0
 	pageCopy[9] = 0
 	
-	// Initialize with FNV offset basis
-	var checksum uint32 = 0
-	
-	// Process page in 4-byte chunks
-	for i := 0; i < PageSize; i += 4 {
-		word := binary.LittleEndian.Uint32(pageCopy[i : i+4])
-		checksum = checksumComp(checksum, word)
-	}
-	
-	// Mix in the block number
-	checksum ^= blockNumber
-	
-	// Fold to 16 bits
-	checksum = (checksum >> 16) ^ (checksum & 0xFFFF)
-	
-	return uint16(checksum)
+	return pgChecksumBlock(pageCopy, blockNumber)
+}
+
+// checksumBaseOffsets are the initial values of the 32 partial checksums
+// (checksumBaseOffsets[N_SUMS] of checksum_impl.h)
+var checksumBaseOffsets = [32]uint32{
+	0x5B1F36E9, 0xB8525960, 0x02AB50AA, 0x1DE66D2A,
+	0x79FF467A, 0x9BB9F8A3, 0x217E7CD2, 0x83E13D2C,
+	0xF8D4474F, 0xE39EB970, 0x42C6AE16, 0x993216FA,
+	0x7B093B5D, 0x98DAFF3C, 0xF718902A, 0x0B1C9CDB,
+	0xE58F764B, 0x187636BC, 0x5D7B3BB1, 0xE73DE7DE,
+	0x92BEC979, 0xCCA6C0B2, 0x304A0979, 0x85AA43D4,
+	0x783125BB, 0x6CA8EAA2, 0xE407EAC6, 0x4B5CFC3E,
+	0x9FBF8C76, 0x15CA20BE, 0xF2CA9FD3, 0x959BD756,
 }
 
 // checksumComp is the core checksum computation function
-// Based on PostgreSQL's implementation in checksum_impl.h
+// CHECKSUM_COMP of PostgreSQL's implementation in checksum_impl.h
+// (FNV-1a with the high bits shifted back in)
 func checksumComp(checksum, value uint32) uint32 {
-	// Split value into two 16-bit parts
-	lo := value & 0xFFFF
-	hi := value >> 16
+	const fnvPrime = 16777619
 	
-	// Rotate checksum by amount based on low bits
-	shift := int(checksum & 0x1F)
-	if shift > 0 {
-		checksum = (checksum >> shift) | (checksum << (32 - shift))
-	}
-	
-	// XOR in the value parts
-	checksum ^= lo
-	checksum ^= hi << 1
-	
-	return checksum
+	tmp := checksum ^ value
+	return tmp*fnvPrime ^ (tmp >> 17)
 }
 
 // isZeroPage checks if a page is all zeros
@@ -286,21 +274,17 @@ func isZeroPage(page []byte) bool {
 	return true
 }
 
-// Alternative FNV-1a based checksum (PostgreSQL's actual implementation)
+// FNV-1a based checksum (PostgreSQL's actual implementation): pg_checksum_block
+// over the data with the checksum field zeroed, then mixed with the block number
+// and reduced to 1..65535 as in pg_checksum_page
 func pgChecksumBlock(page []byte, blockNumber uint32) uint16 {
-	// PostgreSQL checksum uses a SIMD-friendly algorithm
-	// This is a reference implementation
+	// PostgreSQL checksum uses a SIMD-friendly algorithm: the page is an array
+	// of rows of 32 words, column j of every row goes into partial checksum j
 	
-	const (
-		nSums    = 32
-		fnvPrime = 0x01000193
-	)
+	const nSums = 32
 	
-	// Initialize sums with block number mixed in
-	var sums [nSums]uint32
-	for i := range sums {
-		sums[i] = blockNumber
-	}
+	// Initialize sums with the base offsets
+	sums := checksumBaseOffsets
 	
 	// Create copy with checksum field zeroed
 	pageCopy := make([]byte, len(page))
@@ -315,7 +299,14 @@ func pgChecksumBlock(page []byte, blockNumber uint32) uint16 {
 	for i := 0; i < words; i++ {
 		word := binary.LittleEndian.Uint32(pageCopy[i*4 : i*4+4])
 		idx := i % nSums
-		sums[idx] = sums[idx]*fnvPrime ^ word
+		sums[idx] = checksumComp(sums[idx], word)
+	}
+	
+	// Two more rounds of zeroes for additional mixing of the last words
+	for r := 0; r < 2; r++ {
+		for j := range sums {
+			sums[j] = checksumComp(sums[j], 0)
+		}
 	}
 	
 	// Combine all sums
@@ -324,8 +315,9 @@ func pgChecksumBlock(page []byte, blockNumber uint32) uint16 {
 		result ^= s
 	}
 	
-	// Fold to 16 bits
-	result = (result >> 16) ^ (result & 0xFFFF)
+	// Mix in the block number to detect transposed pages
+	result ^= blockNumber
 	
-	return uint16(result)
+	// Reduce to 16 bits with an offset of one: the checksum is never zero
+	return uint16(result%65535 + 1)
 }
